@@ -159,7 +159,54 @@ def literal_ops(lit):
         yield "bip85 %s %s %d 0 -" % (m, app, lit)
 
 
+def numeric_forms(rng, tier, info):
+    """parameters and indexes that are not plain ints — floats, Decimals, Fractions, strings (also ones carrying a
+    path separator), booleans: a value outside the allowed set must be refused, never mapped onto some path.  An
+    answer is tolerated only for an integral value inside the range, and then it must be the integer's answer."""
+    from fractions import Fraction
+    k = rng.randrange(1, N)
+    chain = bytes(rng.getrandbits(8) for _ in range(32))
+    spec = "P:%s:%s:0:0:0:none" % (hx(k.to_bytes(32, "big")), hx(chain))
+    n = 0
+    base_idx = [0, 1, 7, H - 1]
+    apps = [("wif", 0), ("xprv", 0), ("hex", 32), ("hex", 64), ("pwd", 21), ("pwd", 86), ("mnemonic", 12)]
+    for app, param in apps:
+        idx_tokens = []
+        for i in base_idx:
+            idx_tokens += ["f:%d.5" % i, "f:%d.0" % i, "d:%d.5" % i, "d:%d" % i, "q:%d/2" % (2 * i + 1), "q:%d/1" % i,
+                           "s:" + sx(str(i)), "s:" + sx(" %d" % i), "s:" + sx("%d'/7" % i), "s:" + sx("1/%d" % i)]
+        idx_tokens += ["f:-0.5", "f:2147483647.5", "q:7/3", "b:1", "b:0", "f:1e3", "s:" + sx("0x10")]
+        par_tokens = ["f:%d.5" % param, "f:%d.9" % param, "f:%d.0" % param, "d:%d.5" % param, "q:%d/2" % (2 * param + 1),
+                      "s:" + sx(str(param)), "s:" + sx("%d'/0" % param)]
+        cases_ = [("i:%d" % param, t) for t in idx_tokens] + ([(t, "i:0") for t in par_tokens] if param else [])
+        if tier == "quick":
+            cases_ = rng.sample(cases_, min(len(cases_), 18))
+        for pt, it in cases_:
+            line = "bip85x %s %s %s %s" % (spec, app, pt, it)
+            got = impl.run(line)
+            n += 1
+            if not got.startswith("ok "):
+                continue
+            pv, iv = impl.pyvalue(pt), impl.pyvalue(it)
+            ok_int = []
+            for v in (pv, iv):
+                try:
+                    ok_int.append(not isinstance(v, (str, bool)) and v == int(v))
+                except (TypeError, ValueError):
+                    ok_int.append(False)
+            want = indep(app, k, chain, int(pv), int(iv)) if all(ok_int) else None
+            if want is None or unstr(got[3:]) != want:
+                yield (line, "BIP85 %s answered for a %s that is not an allowed integer (param %r, index %r) instead of "
+                             "refusing: %s" % (app, "parameter/index", pv, iv, unstr(got[3:])[:40]))
+    info["non_integer_parameter_cases"] = n
+
+
 def extra_checks(rng, tier, g, info):
+    yield from numeric_forms(rng, tier, info)
+    yield from _soak(rng, tier, g, info)
+
+
+def _soak(rng, tier, g, info):
     """long-lived BIP85 object: S distinct indexes are used under one application node (S above every small literal of
     the source, common.soak_size) — through the node API on the wallet's own nodes and through the BIP85 calls
     themselves — then early / middle / late requests are repeated on the SAME object and compared with the
